@@ -151,12 +151,13 @@ def judge_deep(ctx, case):
                      outcome="truncated" if trunc else "other-key", mech="C17.truncate_gt5" if trunc else "C17.deep.other_key")
 
 
-JUNK = ["abc", "0x10", "0b1", "1.5", "1e3", "None", "'", "h", "5''", "5hh", "5'h", "h5", "'5", "--5", "5-", "1,0", "1;", "m", "*", "?",
+JUNK = ["5\u2019", "5\u02b9", "5\uff48", "5H", "5\u2032", "\uff15'", "5\u00b4", "abc", "0x10", "0b1", "1.5", "1e3", "None", "'", "h", "5''", "5hh", "5'h", "h5", "'5", "--5", "5-", "1,0", "1;", "m", "*", "?",
         "1 2", "true", "0o7", "1__0", "_1", "1_"]
 LENIENT = ["+5", " 7", "7 ", "007", "1_0", "٥", "５", "+0'", " 3'", "1_000h", "-0"]
 BADNUM = ["-1", "-5", "-1'", "-5h", "-2147483648'", "2147483648'", "2147483649h", "4294967295'", "4294967296", "4294967296'",
           "99999999999999999999", "99999999999999999999'", "-99999999999999999999'"]
-ROOTS = ["x", "", "mm", "n", " m", "m ", "Mm", "1", "m'", "/", "µ"]
+ROOTS = ["x", "", "mm", "n", " m", "m ", "Mm", "1", "m'", "/", "µ", "\uff4d", "\u217f", "\uff2d", "\u216f", "\U0001d426", "m44'", "m0", "master", "M0",
+         "m\u200b", "\u043c"]
 
 
 def run(ctx):
